@@ -212,7 +212,7 @@ def run(
 
 
 def oracle(main_module: str, module_text: str, cases, *, tag: str = "oracle", timeout: int = 1800, xss: str = "256m",
-           extra_env: dict[str, str] | None = None):
+           extra_env: dict[str, str] | None = None, cfg: str = ""):
     """Engine O: `module_text` must contain  ASSUME JsonSerialize(IOEnv.OUT, <expr over JsonDeserialize(IOEnv.CASES)>)."""
     wd = make_workdir(tag + "-io")
     cases_f = wd / "cases.json"
@@ -220,7 +220,7 @@ def oracle(main_module: str, module_text: str, cases, *, tag: str = "oracle", ti
     cases_f.write_text(json.dumps(cases))
     env = {"CASES": str(cases_f), "OUT": str(out_f)}
     env.update(extra_env or {})
-    cfg = ""  # no behaviour spec: TLC evaluates ASSUMEs only
+    # no behaviour spec: TLC evaluates ASSUMEs only (cfg may bind constants)
     res = run(main_module, module_text, cfg, tag=tag, workers=1, env=env, timeout=timeout, xss=xss, allow_errors=False)
     if res.assumption_failed:
         raise TLCMachineryError(f"oracle assumption failed: {res.stdout[-2000:]}")
